@@ -79,7 +79,7 @@ func (g *caseGen) prio() string {
 	case 0, 1, 2:
 		return fmt.Sprintf("%d/%d/%d", g.r.Intn(8), g.r.Intn(2), g.r.Intn(256))
 	case 3:
-		if g.r.Chance(1, 4) {
+		if g.r.Chance(1, 12) {
 			core.Count("gen:zero-priority")
 			return "0/0/0"
 		}
